@@ -26,7 +26,29 @@ def pipelines(seed, root):
 
     def ch(*ls):
         return {'k': 'chain', 'flavour': 'chain', 'layers': list(ls)}
-    return [
+    flt = {'k': 'filter', 'f': 'pp', 'args': ['k'], 'table': [[['u'], True], [['v'], False]]}
+    flt2 = {'k': 'filter', 'f': 'pa', 'args': ['a'], 'table': []}
+    grp = {'k': 'groupby', 'by': 'k'}
+    chk = {'k': 'check_ids'}
+    mrg = {'k': 'merge', 'parts': [src, src2]}
+    # several dataset-wide layers in one pipeline (each keeps its own static graph hash), under persistent caches;
+    # the random ones vary with the seed
+    wide = [flt, flt2, chk, {'k': 'keep', 'ids': ['i1', 'i2', 'i3', 'j1']}]
+    combos = [
+        ('filter-groupby', ch(src, flt, grp), ['ids', 'a']),
+        ('filter-groupby-disk', ch(src, flt2, grp, {'k': 'disk', 'names': ['a'], 'root': 0}), ['a']),
+        ('filter-filter', ch(src, flt, flt2), ['ids', 'a']),
+        ('merge-filter-groupby', ch(mrg, flt2, grp), ['ids', 'a']),
+        ('filter-checkids-groupby-columns', ch(src, flt2, chk, grp, {'k': 'columns', 'names': ['b'], 'root': 1, 'shard': 2}), ['b']),
+    ]
+    for r in range(3):
+        ls = [rng.choice([src, mrg])] + [rng.choice(wide) for _ in range(rng.randint(1, 3))]
+        if rng.random() < 0.6:
+            ls.append(grp)
+        if rng.random() < 0.5:
+            ls.append({'k': 'disk', 'names': ['a'], 'root': 0})
+        combos.append((f'random-{r}', ch(*ls), ['a', 'ids']))
+    return combos + [
         ('source', src, ['a', ('a', 'b')]),
         ('transform', ch(src, tr), ['c', 'd', ('c', 'd', 'a')]),
         ('apply', ch(src, {'k': 'apply', 'fns': {'a': 'ap.a'}}), ['a']),
